@@ -71,6 +71,7 @@ type Exec struct {
 	cellFuncs       map[string]*FuncInfo
 	calledContracts map[*Contract]bool
 	returnReach     []string
+	returnPos       []string
 	coverAcc        map[string][]string
 	spawnsAllowed   bool
 	chainAxioms     bool
@@ -83,6 +84,7 @@ type Exec struct {
 	pureLets        [][2]string
 	callerFrame     *frame
 	lastArgTypes    map[string]types.Type
+	lastResTypes    map[string]types.Type
 	strLits         map[string]string
 	letDepth        int
 	qrec            map[string]*qRecord
@@ -98,7 +100,7 @@ type qRecord struct {
 func newExec(w *World, u *Unit) *Exec {
 	ex := &Exec{w: w, unit: u, declared: map[string]string{}, keySort: map[string]string{}, defCache: map[string]string{},
 		used: map[string]bool{}, strs: map[string]string{}, loopMods: map[string]map[string]bool{}, loopAll: map[string]bool{}, oblCount: map[string]int{},
-		cellFuncs: map[string]*FuncInfo{}, calledContracts: map[*Contract]bool{}, coverAcc: map[string][]string{}, sentinels: map[string]types.Type{}, qrec: map[string]*qRecord{}, curReach: "true", lastArgTypes: map[string]types.Type{}, strLits: map[string]string{}}
+		cellFuncs: map[string]*FuncInfo{}, calledContracts: map[*Contract]bool{}, coverAcc: map[string][]string{}, sentinels: map[string]types.Type{}, qrec: map[string]*qRecord{}, curReach: "true", lastArgTypes: map[string]types.Type{}, lastResTypes: map[string]types.Type{}, strLits: map[string]string{}}
 	ex.baseInit = &Base{id: 0}
 	ex.declare("str_empty", sStr)
 	return ex
@@ -317,9 +319,11 @@ func wfFact(key, term, top string) string {
 	}
 	switch kind {
 	case "F", "C":
-		return "(forall ((r!w Int)) (! (and (<= 0 (select " + term + " r!w)) (<= (select " + term + " r!w) " + top + ")) :pattern ((select " + term + " r!w))))"
+		// objects allocated after this heap snapshot (r > top: results of later contract calls whose contents are
+		// read lazily from the snapshot) may point to anything allocated later: only non-negativity is known
+		return "(forall ((r!w Int)) (! (and (<= 0 (select " + term + " r!w)) (=> (<= r!w " + top + ") (<= (select " + term + " r!w) " + top + "))) :pattern ((select " + term + " r!w))))"
 	case "E":
-		return "(forall ((r!w Int) (i!w Int)) (! (and (<= 0 (select (select " + term + " r!w) i!w)) (<= (select (select " + term + " r!w) i!w) " + top + ")) :pattern ((select (select " + term + " r!w) i!w))))"
+		return "(forall ((r!w Int) (i!w Int)) (! (and (<= 0 (select (select " + term + " r!w) i!w)) (=> (<= r!w " + top + ") (<= (select (select " + term + " r!w) i!w) " + top + "))) :pattern ((select (select " + term + " r!w) i!w))))"
 	case "G":
 		return "(and (<= 0 " + term + ") (<= " + term + " " + top + "))"
 	}
